@@ -40,7 +40,11 @@ func (ex *Exec) valid(cond *sym.Term) bool {
 }
 
 // digitOf recognises uint64(b - '0') and returns b.
-func digitOf(t *sym.Term) (*sym.Term, bool) {
+func (ex *Exec) digitOf(t *sym.Term) (*sym.Term, bool) {
+	if t.Op == sym.OZExt && t.Args[0].Op == sym.OVar && t.Args[0].S.W == 4 {
+		// vx.Digit: the byte is '0' + d
+		return ex.c.BinBV(sym.OAdd, ex.c.Const(sym.BV(8), '0'), ex.c.ZExt(t.Args[0], 8)), true
+	}
 	if t.Op == sym.OZExt {
 		t = t.Args[0]
 	}
@@ -65,7 +69,7 @@ func (ex *Exec) hornerBytes(x *sym.Term) ([]*sym.Term, bool) {
 			}
 			break
 		}
-		if b, ok := digitOf(t); ok {
+		if b, ok := ex.digitOf(t); ok {
 			rev = append(rev, b)
 			break
 		}
@@ -74,9 +78,9 @@ func (ex *Exec) hornerBytes(x *sym.Term) ([]*sym.Term, bool) {
 		}
 		a0, a1 := t.Args[0], t.Args[1]
 		var mul, dig *sym.Term
-		if b, ok := digitOf(a1); ok && a0.Op == sym.OMul {
+		if b, ok := ex.digitOf(a1); ok && a0.Op == sym.OMul {
 			mul, dig = a0, b
-		} else if b, ok := digitOf(a0); ok && a1.Op == sym.OMul {
+		} else if b, ok := ex.digitOf(a0); ok && a1.Op == sym.OMul {
 			mul, dig = a1, b
 		} else {
 			return nil, false
@@ -198,7 +202,7 @@ func (ex *Exec) hornerBytesNoStrip(x *sym.Term, k int) ([]*sym.Term, bool) {
 	var rev []*sym.Term
 	t := x
 	for {
-		if b, ok := digitOf(t); ok {
+		if b, ok := ex.digitOf(t); ok {
 			rev = append(rev, b)
 			break
 		}
@@ -213,9 +217,9 @@ func (ex *Exec) hornerBytesNoStrip(x *sym.Term, k int) ([]*sym.Term, bool) {
 		}
 		a0, a1 := t.Args[0], t.Args[1]
 		var mul, dig *sym.Term
-		if b, ok := digitOf(a1); ok && a0.Op == sym.OMul {
+		if b, ok := ex.digitOf(a1); ok && a0.Op == sym.OMul {
 			mul, dig = a0, b
-		} else if b, ok := digitOf(a0); ok && a1.Op == sym.OMul {
+		} else if b, ok := ex.digitOf(a0); ok && a1.Op == sym.OMul {
 			mul, dig = a1, b
 		} else {
 			return nil, false
